@@ -4,7 +4,8 @@ _s = importlib.util.spec_from_file_location("worldgen", os.path.join(os.path.dir
 
 LEVEL = "proof"
 MODEL = "lean/Sentinel/World.lean (World.build, World.exit, Node.recordPass/recordBlock/recordComplete)"
-RULE = ("2-4 resources, inbound/outbound, batch 1..5, flow and isolation rules on some resources so that a fraction of entries is blocked, "
+RULE = ("2-4 resources, inbound/outbound, batch 1..5, flow and isolation rules on some resources so that a fraction of entries is blocked (in 45% of the cases rules of every family: "
+        "flow throttling and hotspot throttling with queued (Wait) verdicts, hotspot QPS / concurrency, circuit breakers), 30% of the exits carry a traced error, "
         "time advances from {0,1,499,500,501,999,1000,1001,uniform 0..2500} and occasionally {~10 s, 59999..61500 ms, 125 s, 1 h} between calls (response times beyond one minute), exits in any order; every op is followed by reads of the "
         "resource node and of the global inbound node. Non-trivial: at least one blocked entry and one exit with positive response time; distinct = distinct op text.")
 NONTRIVIAL_TAGS = ["flow-block", "other-block"]
@@ -21,9 +22,27 @@ def gen_case(rng):
     now = rng.choice([0, 250, 499, 500, 777])
     if now:
         ops.append("adv ms=%d" % now)
+    hs_res = set()
+    rich = rng.random() < 0.45          # all rule families, incl. queueing (Wait) verdicts and breakers (seed C04-d)
     for r in res:
         k = rng.random()
-        if k < 0.35:
+        if rich:
+            fam = rng.choice(["flowq", "hsq", "hst", "hsc", "br", "flow", "iso", "none"])
+            if fam == "flowq":
+                ops.append("flow.load res=%s rules=a:%s:1000:d:t:0:0:%d" % (r, rng.choice(["2", "5", "10"]), rng.choice([300, 1000, 2000])))
+            elif fam == "hsq":
+                ops.append("hs.load res=%s rules=h;q;r;0;;%d;0;%d;1;0;" % (r, rng.randint(1, 3), rng.randint(0, 1))); hs_res.add(r)
+            elif fam == "hst":
+                ops.append("hs.load res=%s rules=h;q;t;0;;%d;%d;0;1;0;" % (r, rng.randint(1, 5), rng.choice([300, 1000, 2000]))); hs_res.add(r)
+            elif fam == "hsc":
+                ops.append("hs.load res=%s rules=h;c;r;0;;%d;0;0;0;0;" % (r, rng.randint(1, 3))); hs_res.add(r)
+            elif fam == "br":
+                ops.append("br.load res=%s rules=b;c;%d;1;1000;1;50;%d" % (r, rng.choice([300, 1500]), rng.randint(1, 2)))
+            elif fam == "flow":
+                ops.append("flow.load res=%s rules=a:%s:%d" % (r, rng.choice(["1", "2", "3"]), rng.choice([0, 1000, 1500])))
+            elif fam == "iso":
+                ops.append("iso.load res=%s rules=i:%d" % (r, rng.randint(1, 4)))
+        elif k < 0.35:
             ops.append("flow.load res=%s rules=a:%s:%d" % (r, rng.choice(["1", "2", "3", "5/2"]), rng.choice([0, 1000, 2000, 1500])))
         elif k < 0.7:
             ops.append("iso.load res=%s rules=i:%d" % (r, rng.randint(1, 4)))
@@ -43,11 +62,13 @@ def gen_case(rng):
         x = rng.random()
         if x < 0.6 or not open_:
             eid += 1
-            ops.append("build e=%d res=%s batch=%d dir=%s" % (eid, r, rng.choice([1, 1, 1, 2, 3, 5]), rng.choice(["in", "in", "out"])))
+            extra = " args=%s" % rng.choice(["a", "a", "b"]) if r in hs_res else ""
+            ops.append("build e=%d res=%s batch=%d dir=%s%s" % (eid, r, rng.choice([1, 1, 1, 2, 3, 5]), rng.choice(["in", "in", "out"]), extra))
             open_.append(eid)
         else:
             e = open_.pop(rng.randrange(len(open_)))
-            ops.append("exit e=%d" % e)
+            # a traced error on the entry (Entry::set_err) must not change the accounting of its exit (seed C05-d)
+            ops.append("exit e=%d%s" % (e, " err=1" if rng.random() < 0.3 else ""))
         ops.append("node res=%s" % r)
         if rng.random() < 0.6:
             ops.append("node res=__inbound__")
